@@ -114,10 +114,15 @@ def validate(rep, wd, groups, owner, prefix, maxbatch=700):
             t = by[r[1]]
             clause = r[3]
             e = t['events'][min(r[2], len(t['events'])) - 1]
+            first = t['events'][0]
             payload = {'case': t.get('_desc'), 'config': list(cfgspec), 'codec': codec, 'hex_bitmap': t['hex'],
                        'event': e['op'], 'clause': clause, 'message': t.get('_m'),
                        'bytes_hex': bytes(x & 255 for x in e['bytes']).hex()[:400], 'observed_kind': e['kind'],
-                       'observed': e.get('_observed'), 'result': t.get('_d')}
+                       'observed': e.get('_observed'), 'result': t.get('_d'),
+                       # enough to re-run the calls: ./check <id> --replay <file>
+                       'replay': {'first_op': first['op'], 'm': first['m'] if len(first['m']) < 200 else None,
+                                  'bytes_hex_full': bytes(x & 255 for x in first['bytes']).hex() if first['op'] == 'loads' and len(first['bytes']) <= 8192 else None,
+                                  'secret': first.get('secret', [])}}
             if owner(clause):
                 rep.violation('%s:%s%s' % (prefix, clause, t.get('_key', '')), payload)
             else:
@@ -139,3 +144,25 @@ def roundtrip_trace(tid, m, bc, codec, hexb, desc, secret=''):
         evs.append(e2)
     return {'tid': tid, 'hex': hexb, 'events': evs, '_desc': desc, '_m': repr(m)[:500],
             '_d': repr(d)[:300] if d is not None else None}
+
+
+def replay(rep, wd, payload, owner, prefix):
+    """re-run the recorded calls of one violation on the working tree and ask TLC again about that single trace"""
+    p = payload['payload']
+    rp = p.get('replay') or {}
+    cfgspec = tuple(p['config'])
+    bc = get_config(cfgspec)
+    if rp.get('first_op') == 'dumps' and rp.get('m') is not None:
+        m = isoc.undict(rp['m'])
+        t = roundtrip_trace(0, m, bc, p['codec'], p['hex_bitmap'], 'replay of ' + str(p.get('case')),
+                            secret=''.join(chr(c) for c in rp.get('secret') or []))
+    elif rp.get('first_op') == 'loads' and rp.get('bytes_hex_full') is not None:
+        e, d = isoc.do_loads(bytes.fromhex(rp['bytes_hex_full']), p['codec'], bc, p['hex_bitmap'])
+        t = {'tid': 0, 'hex': p['hex_bitmap'], 'events': [e], '_desc': 'replay of ' + str(p.get('case')), '_m': None,
+             '_d': repr(d)[:300] if d is not None else None}
+    else:
+        print('this violation cannot be replayed from its file alone: re-run the full check with VERIF_SEED=%s' % payload.get('seed'))
+        return
+    for ev in t['events']:
+        print('re-executed %s -> %s %s' % (ev['op'], ev['kind'], ev.get('_observed') or ''))
+    validate(rep, wd, [(cfgspec, p['codec'], [t])], owner, prefix)
